@@ -70,6 +70,15 @@ Theorem C16_no_deadlock_runs : forall (ths : list (list (site * (snode -> node))
   ~ (forall i t, nth_error s i = Some t -> rest t <> [] -> blocked clock ccall s i).
 Proof. exact runs_no_deadlock. Qed.
 Print Assumptions C16_no_deadlock_runs.
+(** NO LOCK OUTLIVES ITS RUN: in every reachable state, a goroutine that has finished its run of fragments holds
+    nothing -- so (with C16_no_deadlock_runs and C16_finite) every execution ends with every request answered and
+    every lock free *)
+Theorem C16_runs_release_everything : forall (ths : list (list (site * (snode -> node)))),
+  (forall run st rho, In run ths -> In (st, rho) run -> In st sites /\ carries st = true /\ respects rho (full_path st)) ->
+  forall s, reachable clock clock_eqb ccall ccall_eqb (map run_thread ths) s ->
+  forall i t, nth_error s i = Some t -> rest t = [] -> held t = [].
+Proof. exact runs_finished_hold_nothing. Qed.
+Print Assumptions C16_runs_release_everything.
 (** every fragment ends with nothing held and no backend call in progress (what makes the succession meaningful) *)
 Theorem C16_fragment_closed : forall st, In st sites -> carries st = true ->
   forall rho, respects rho (full_path st) -> closed clock clock_eqb ccall ccall_eqb (site_thread rho st).
